@@ -1,4 +1,5 @@
 import RpycModel.Async.Multi
+import RpycModel.Gen.Async
 import Driver.Text
 /-
 drv_async ops (not verified; exercised on every line):
@@ -211,7 +212,7 @@ def asyncOp : List String → String
     match ex.toList, parseNatChars now.toList, e.toList, parseNatChars v.toList, cbs.mapM parseCb with
     | [x], some now, [b], some v, some cbs =>
       match parseBoolC x, parseBoolC b with
-      | some x, some b => showCallOut (callR x now cbs b v)
+      | some x, some b => showCallOut (callR Gen.Async.callbacksAllRun x now cbs b v)
       | _, _ => "bad-op"
     | _, _, _, _, _ => "bad-op"
   | "run" :: t0 :: toks =>
